@@ -7,6 +7,7 @@ d R-ENUM   event type literals agree between CLI table, parser dispatch and cons
 e          junction search loops visit the first exon (index 0) as well
 """
 import ast
+import re
 from sa.model import unparse, norm_stmt, call_name, kwarg, walk_no_nested, AnalysisError, str_consts
 from sa.cfg import CFG
 from sa import guards as G
@@ -304,3 +305,42 @@ def run(chk, repo):
     from rules.shared import optname
     chk.clauses.append('C16.h (shared R-THREAD) an option value bound to a name that is itself a CLI option carries that very option')
     optname(chk, repo, 'C16.h', ['cli.parse_rmats'], floor=0)
+    # ------------------------------------------------------------------ i: interjacent exons ascending; RI scans every exon
+    from sa import sem as _sem16
+    chk.rule('C16.i', 'R-ORDER / R-COVER: interjacent exon indices are returned in ascending order whatever the scan direction; the retained-intron test visits every exon', 2)
+    chk.clauses.append('C16.i get_interjacent_exons returns ascending exon indices (consumers read [0] / [-1] as first / last in genomic order) and '
+                       'RIRecord tests EVERY exon of a transcript for containing the retained intron (also the last one)')
+    gi = repo.func(SJ + 'get_interjacent_exons')
+    chk.uses(gi)
+    ngi = _sem16.nf(repo, gi)
+    bad_sort = [unparse(c) for c in ast.walk(ngi) if isinstance(c, ast.Call) and call_name(c) in ('sorted', 'sort') and kwarg(c, 'reverse') is not None
+                and not (isinstance(kwarg(c, 'reverse'), ast.Constant) and kwarg(c, 'reverse').value is False)]
+    revs = _sem16.facts_where(ngi, lambda st: _sem16.own_stmt(st) and (any(True for c in _sem16.calls_in_stmt(st, 'reversed')) or any(True for c in _sem16.calls_in_stmt(st, 'reverse'))))
+    ok = not bad_sort and bool(revs) and all(_sem16.known(fx, 'is_reversed') is True for _st, fx in revs)
+    chk.ob('C16.i', 'interjacent exons collected by the backward scan are reversed back to ascending order (and only then)', gi.where, ok,
+           f"order of the returned exon indices depends on the scan direction ({bad_sort or 'reversal not tied to is_reversed'}): create_*_deletion / substitution read "
+           "interjacent[0] and interjacent[-1] the wrong way round when more than one exon lies in the intron", key=gi.qual + '::ascending', fn=gi.qual)
+    ri = repo.func(REC['RI'] + '.convert_to_variant_records')
+    chk.uses(ri)
+    for lst in ('retained_in_ref', 'spliced_in_ref'):
+        sites = [n for n in ast.walk(ri.node) if isinstance(n, ast.Call) and call_name(n) == 'append' and unparse(n.func.value) == lst]
+        okc = bool(sites)
+        detail = f"{lst}.append not found"
+        for c in sites:
+            lp = next((a for a in repo.ancestors(c) if isinstance(a, (ast.For, ast.While))), None)
+            if lp is None:
+                okc, detail = False, 'not inside an exon loop'
+            elif isinstance(lp, ast.For):
+                it = unparse(lp.iter)
+                full = re.fullmatch(r'(enumerate\()?(model|tx_model|anno\.transcripts\[\w+\])\.exon\)?', it) is not None
+                if not full and lst == 'retained_in_ref':
+                    okc, detail = False, f"the loop iterates '{it}', which does not visit every exon of the transcript"
+            else:
+                drv = unparse(lp.test)
+                src = [unparse(a.value) for a in ast.walk(ri.node) if isinstance(a, ast.Assign) and unparse(a.targets[0]) == 'it']
+                if not (drv in ('exon', 'exon is not None') and any(re.fullmatch(r'iter\((model|tx_model)\.exon\)', s_) for s_ in src)):
+                    okc, detail = False, f"while-loop '{drv}' is not driven by an iterator over all exons"
+        if lst == 'retained_in_ref':
+            chk.ob('C16.i', 'RI: every exon of the transcript is tested for retaining the intron', ri.where, okc,
+                   f"{detail}: a transcript whose LAST exon retains the intron is not recognised as retaining (an Insertion is emitted although an annotated isoform has that form)",
+                   key=ri.qual + '::retained-cover', fn=ri.qual)
